@@ -159,10 +159,14 @@ ObsLogin(o, acct, res, snap) ==
   ObsSnap(IF res = "ok" THEN [o EXCEPT !.exists = @ \cup {acct}] ELSE o, snap)
 
 \* calls: the set of [f, acct, ad] the filters were called with
-ObsBody(o, c, outs, calls, res, snap) ==
+\* fault: position of the recipient whose blob-store write was made to fail (0 = none)
+ObsBody(o, c, outs, calls, fault, res, snap) ==
   LET o1 == V(o,  ~o.quar \/ calls = {}, "FilterRanOnQuarantined")
       o2 == V(o1, \A x \in calls : x.acct \in o.acc, "FilterCalledForStranger")
-      o3 == [o2 EXCEPT !.want = [x \in AllAccts |->
+      \* a failing filter does not fail the delivery; a failing store does
+      oa == V(o2, res = "ok" \/ fault > 0 \/ o.acc \ o.exists # {}, "BodyFailedWithoutCause")
+      ob == V(oa, fault = 0 \/ res # "ok", "StoreFailureNotReported")
+      o3 == [ob EXCEPT !.want = [x \in AllAccts |->
                  IF x \in o.acc THEN [boxes |-> AllowedBoxes(c, o.quar, outs, x),
                                       flags |-> WantFlags(o.quar, outs, x)]
                  ELSE [boxes |-> {}, flags |-> {}]]]
